@@ -211,5 +211,9 @@ def check(ctx, rep):
             p = norm(s['path'])
             rep.expect('R13.f', p in STATIC_TABLE, p, 'tabled: %s' % STATIC_TABLE.get(p, ''),
                        'new process-wide mutable static %s : %s has no pairing row' % (p, s['ty']))
+    # R13.g: nothing keeps a dropped legacy request future alive: its resolve closure holds only a Weak to the shared state (shared with C05 R05.d)
+    from rules.props import c05 as _c05
+    rep.rule('R13.g', 'legacy shell futures and their resolve closures form no reference cycle (the closure holds a Weak)', floor=6)
+    _c05.check_legacy_futures(rep, 'R13.g', 'R13.g', core)
     rep.assume('join_handle_wakers grows with the number of polls of a pending JoinHandle (noted, no rule)')
     rep.assume('slab reuses freed keys, so a released slot does not grow the slab')
